@@ -31,7 +31,7 @@ ASSUMPTIONS = ["'has already sent its first offer' = the first offer was decided
                "an answer may leave up to SEND_COLLECTION_TIMEOUT after it was due"]
 FLOORS = {"quick": {"scenarios": 8000, "find_entries": 12000, "answers_predicted": 6000, "answers_matched": 6000,
                     "silent_by_mismatch": 10000, "silent_by_phase": 2000, "multicast_delayed_answers": 2000, "wildcard_entries": 5000,
-                    "lifecycle_classes": 9,
+                    "lifecycle_classes": 9, "requests_with_more_than_80_find_entries": 120,
                     "mesh_scenarios": 100, "mesh_find_deliveries_judged": 180, "mesh_find_answers_matched": 90}}
 # system-level shards: the mesh workload of pv/mesh.py under this property's boundary monitor (reports of other monitors are dropped)
 MESH = {"want": ("findanswer",), "claim": ("mesh:find-not-answered", "mesh:unicast-offer-that-no-find-explains"),
@@ -191,6 +191,8 @@ def build(rng):
         return None
     mc = rng.random() < 0.5
     nent = rng.choice((1, 1, 1, 2, 3))
+    if rng.random() < 0.05:
+        nent = rng.choice((30, 45, 90, 130))  # one request asking for very many things at once: up to a few hundred answers fall due together
     entries, pats = [], []
     for _ in range(nent):
         e, p = gen_entry(rng, rng.choice(insts))
@@ -232,6 +234,8 @@ def judge(ctx, sc, seed, replay):
     sent, problems = run.execute(sc["horizon"])
     ctx.count("scenarios")
     ctx.count("find_entries", len(sc["entries"]))
+    if len(sc["entries"]) > 80:
+        ctx.count("requests_with_more_than_80_find_entries")
     ctx.note("lifecycle_classes_seen", sc["cls"])
     y, x, d, ct = sc["y"], sc["x"], sc["d"], cfg["ct"]
     # the property promises the answer "inside the configured request-response window", not a particular draw
